@@ -30,6 +30,28 @@ theorem eff_applyActs (acts : List (Nat × Val)) (s : Store) : Eff s (applyActs 
     simp only [applyActs]
     exact (Eff.modify s f _).trans (ih _)
 
+theorem eff_applyWrites (ws : List (Nat × Option Val)) (s : Store) : Eff s (applyWrites ws s) := by
+  induction ws generalizing s with
+  | nil => exact Eff.refl s
+  | cons w rest ih =>
+    obtain ⟨f, v⟩ := w
+    simp only [applyWrites]
+    exact (Eff.modify s f _).trans (ih _)
+
+theorem eff_applyMore (acts : List Act) (s : Store) : Eff s (applyMore acts s).2 := by
+  induction acts generalizing s with
+  | nil => exact Eff.refl s
+  | cons a rest ih =>
+    simp only [applyMore]
+    split
+    · exact Eff.refl s
+    · exact (eff_applyWrites _ s).trans (ih _)
+
+/-- firing a rule — all of its actions, or those before the first failing one — is a
+well-bracketed sequence of recording writes -/
+theorem eff_fire (r : Rule) (s : Store) : Eff s (fire r s).2 :=
+  (eff_applyActs r.acts s).trans (eff_applyMore r.more _)
+
 /-- C10's frame theorem, in the form the search uses it -/
 theorem eff_rollback {s s2 : Store} (h : Eff (gstep s .begin) s2) : gstep s2 .rollback = s := by
   obtain ⟨ops, hb, he⟩ := h
@@ -104,6 +126,10 @@ theorem data_modify_const (s : Store) (f : Nat) (v : Val) :
     (gstep s (.modify f (fun _ => some v))).data = upd s.data f (some v) := by
   simp [gstep, record_data]
 
+theorem data_modify_const' (s : Store) (f : Nat) (v : Option Val) :
+    (gstep s (.modify f (fun _ => v))).data = upd s.data f v := by
+  simp [gstep, record_data]
+
 theorem applyActs_data (acts : List (Nat × Val)) (s : Store) :
     (applyActs acts s).data = applyActsData acts s.data := by
   induction acts generalizing s with
@@ -113,12 +139,47 @@ theorem applyActs_data (acts : List (Nat × Val)) (s : Store) :
     simp only [applyActs, applyActsData]
     rw [ih, data_modify_const]
 
+theorem applyWrites_data (ws : List (Nat × Option Val)) (s : Store) :
+    (applyWrites ws s).data = applyWritesData ws s.data := by
+  induction ws generalizing s with
+  | nil => rfl
+  | cons w rest ih =>
+    obtain ⟨f, v⟩ := w
+    simp only [applyWrites, applyWritesData]
+    rw [ih, data_modify_const']
+
+theorem applyMore_data (acts : List Act) (s : Store) :
+    (applyMore acts s).1 = (applyMoreData acts s.data).1 ∧
+    (applyMore acts s).2.data = (applyMoreData acts s.data).2 := by
+  induction acts generalizing s with
+  | nil => exact ⟨rfl, rfl⟩
+  | cons a rest ih =>
+    simp only [applyMore, applyMoreData]
+    split
+    · exact ⟨rfl, rfl⟩
+    · rw [← applyWrites_data]; exact ih _
+
+theorem fire_data (r : Rule) (s : Store) :
+    (fire r s).1 = (fireData r s.data).1 ∧ (fire r s).2.data = (fireData r s.data).2 := by
+  have h := applyMore_data r.more (applyActs r.acts s)
+  rw [applyActs_data] at h
+  exact h
+
+/-- a rule without further actions fires by its `Set` actions alone and never fails -/
+theorem fire_plain {r : Rule} (h : r.more = []) (s : Store) : fire r s = (true, applyActs r.acts s) := by
+  simp [fire, h, applyMore]
+
+theorem fireData_plain {r : Rule} (h : r.more = []) (d : Data) : fireData r d = (true, applyActsData r.acts d) := by
+  simp [fireData, h, applyMoreData]
+
 /-- forward reachability: the stores obtainable from `d0` by firing rules of `kb`, each with its
-condition true (under the backward engine's evaluator) in the store it fires on -/
+condition true (under the backward engine's evaluator) in the store it fires on.  (A rule one of
+whose actions fails stops there: `fireData` is what it wrote up to that point; the depth-first
+search always rolls such a firing back, the breadth-first search keeps it.) -/
 inductive Reach (kb : List Rule) (d0 : Data) : Data → Prop
   | refl : Reach kb d0 d0
   | fire {d : Data} {r : Rule} : Reach kb d0 d → r ∈ kb → evalCond d r.cond = true →
-      Reach kb d0 (applyActsData r.acts d)
+      Reach kb d0 (fireData r d).2
 
 /-! ### what every (sub-)search result satisfies -/
 
@@ -170,13 +231,13 @@ theorem good_commit (env : Env) (d0 : Data) (goal : Atom) (st stA : Store) (r : 
     (hmem : r ∈ env.kb) (heff : Eff (gstep st .begin) stA)
     (hreach : Reach env.kb d0 st.data → Reach env.kb d0 stA.data)
     (hc : evalCond stA.data r.cond = true)
-    (hg : evalAtom (applyActs r.acts stA).data goal = true) :
-    Good env d0 goal st (true, (gstep (applyActs r.acts stA) .commit, ns)) where
-  eff := eff_commit (heff.trans (eff_applyActs _ _))
+    (hg : evalAtom (fire r stA).2.data goal = true) :
+    Good env d0 goal st (true, (gstep (fire r stA).2 .commit, ns)) where
+  eff := eff_commit (heff.trans (eff_fire _ _))
   restore := by simp
   reach := by
     intro h
-    simp only [data_commit, applyActs_data]
+    simp only [data_commit, (fire_data r stA).2]
     exact .fire (hreach h) hmem hc
   holds := by
     intro _ _
@@ -200,17 +261,21 @@ theorem execOut_good (env : Env) (top : Bool) (d0 : Data) (goal : Atom) (found :
     (hc : evalCond stA.data r.cond = true) :
     CandGood env d0 goal st (execOut env top goal found stA r ns) := by
   unfold execOut
-  by_cases hg : evalAtom (applyActs r.acts stA).data goal = true
-  · simp only [hg, if_true]
-    by_cases hm : (env.maxSol == 1 || !top || decide (ns + 1 ≥ env.maxSol)) = true
-    · simp only [hm, if_true]
-      exact good_commit env d0 goal st stA r (ns + 1) hmem heff hreach hc hg
-    · simp only [hm]
-      refine ⟨heff.trans (eff_applyActs _ _), ?_⟩
-      intro h1
-      simp [h1] at hm
-  · simp only [hg]
-    exact ⟨heff.trans (eff_applyActs _ _), hf⟩
+  by_cases hok : (fire r stA).1 = true
+  · simp only [hok, Bool.not_true, Bool.false_eq_true, if_false]
+    by_cases hg : evalAtom (fire r stA).2.data goal = true
+    · simp only [hg, if_true]
+      by_cases hm : (env.maxSol == 1 || !top || decide (ns + 1 ≥ env.maxSol)) = true
+      · simp only [hm, if_true]
+        exact good_commit env d0 goal st stA r (ns + 1) hmem heff hreach hc hg
+      · simp only [hm]
+        refine ⟨heff.trans (eff_fire _ _), ?_⟩
+        intro h1
+        simp [h1] at hm
+    · simp only [hg]
+      exact ⟨heff.trans (eff_fire _ _), hf⟩
+  · simp only [hok, Bool.not_false, if_true]
+    exact ⟨heff.trans (eff_fire _ _), hf⟩
 
 theorem candStep_good (env : Env) (top : Bool) (d0 : Data) (rec : Rec)
     (hrec : ∀ g c s, Good env d0 g s.1 (rec g c s)) (goal : Atom) (i : Nat) (found : Bool)
@@ -313,14 +378,15 @@ theorem bfsLoop_good (kb : List Rule) (d0 : Data) (goal : Atom) :
       simp only
       by_cases hc : evalCond st.data r.cond = true
       · simp only [hc, if_true]
-        have hreach : Reach kb d0 st.data → Reach kb d0 (applyActs r.acts st).data := by
-          intro h; rw [applyActs_data]; exact .fire h hmem hc
-        by_cases hg : evalAtom (applyActs r.acts st).data goal = true
+        have hreach : Reach kb d0 st.data → Reach kb d0 (fire r st).2.data := by
+          intro h; rw [(fire_data r st).2]; exact .fire h hmem hc
+        by_cases hg : ((fire r st).1 && evalAtom (fire r st).2.data goal) = true
         · simp only [hg, if_true]
-          exact ⟨eff_applyActs _ _, hreach, fun _ => trivial⟩
+          refine ⟨eff_fire _ _, hreach, fun _ => ?_⟩
+          simp only [Bool.and_eq_true] at hg; exact hg.2
         · simp only [hg]
-          have h := ih (applyActs r.acts st)
-          exact ⟨(eff_applyActs _ _).trans h.1, fun hr => h.2.1 (hreach hr), h.2.2⟩
+          have h := ih (fire r st).2
+          exact ⟨(eff_fire _ _).trans h.1, fun hr => h.2.1 (hreach hr), h.2.2⟩
       · simp only [hc]
         exact ih st
 
@@ -328,10 +394,12 @@ theorem execOut_ret_true {env : Env} {top : Bool} {goal : Atom} {found : Bool} {
     {res : Bool × SS} (h : execOut env top goal found stA r ns = .ret res) : res.1 = true := by
   simp only [execOut] at h
   split at h
-  · split at h
-    · cases h; rfl
-    · cases h
   · cases h
+  · split at h
+    · split at h
+      · cases h; rfl
+      · cases h
+    · cases h
 
 theorem candStep_ret_true {env : Env} {top : Bool} {rec : Rec} {goal : Atom} {i : Nat} {found : Bool} {st : Store}
     {ns : Nat} {res : Bool × SS} (h : candStep env top rec goal i found st ns = .ret res) : res.1 = true := by
@@ -346,12 +414,15 @@ theorem candStep_ret_true {env : Env} {top : Bool} {rec : Rec} {goal : Atom} {i 
 
 theorem candStep_fires (env : Env) (top : Bool) (rec : Rec) (goal : Atom) (i : Nat) (found : Bool) (st : Store)
     (ns : Nat) (r : Rule) (hms : env.maxSol = 1) (hk : env.kb[i]? = some r)
-    (hc : evalCond st.data r.cond = true) (ha : evalAtom (applyActsData r.acts st.data) goal = true) :
+    (hc : evalCond st.data r.cond = true) (hok : (fireData r st.data).1 = true)
+    (ha : evalAtom (fireData r st.data).2 goal = true) :
     ∃ res, candStep env top rec goal i found st ns = .ret res := by
   have hd : (gstep st .begin).data = st.data := rfl
-  have ha' : evalAtom (applyActs r.acts (gstep st .begin)).data goal = true := by
-    rw [applyActs_data, hd]; exact ha
-  simp only [candStep, hk, hd, hc, if_true, execOut, ha', hms]
+  have hok' : (fire r (gstep st .begin)).1 = true := by
+    rw [(fire_data r _).1, hd]; exact hok
+  have ha' : evalAtom (fire r (gstep st .begin)).2.data goal = true := by
+    rw [(fire_data r _).2, hd]; exact ha
+  simp only [candStep, hk, hd, hc, if_true, execOut, hok', ha', hms]
   exact ⟨_, rfl⟩
 
 end C09
